@@ -221,8 +221,11 @@ def near_value(rng):
     k = rng.random()
     if k < 0.4:
         return near_name(rng)
-    if k < 0.8:
+    if k < 0.7:
         return {near_name(rng): rng.choice([1, 'x', None, True]), 'req': True}
+    if k < 0.8:
+        # a Python mapping need not have text keys (a decoded msgpack / YAML body, a hand-built dict)
+        return {rng.choice([1, None, (1, 2), 2.5, True, b'req', frozenset()]): rng.choice([1, 'x', None]), 'req': True}
     return [near_name(rng), {'nested': {near_name(rng): 1, 'req': False}, 'req': True}]
 
 
